@@ -66,3 +66,27 @@ Theorem C12_draw_preimages : forall k1 r, 0 < k1 <= W64 -> 0 <= r < k1 ->
   let rs := (W64 - 1) / k1 in forall x, (0 <= x < rs * k1 /\ x mod k1 = r) <-> (exists q, 0 <= q < rs /\ x = q * k1 + r).
 Proof. exact draw_preimages. Qed.
 Print Assumptions C12_draw_preimages.
+
+(* poly::set(hwt_dist const&) OF THE SOURCE (include/nfl/core.hpp), read on every run by tools/cxxhwt2coq.py into gen/GenHwt.v: the control skeleton
+   HwtSem.hwt_prog (two vectors, the iterator pair, the position loop with its endless rejection loop, sort, clear, refill, the modulus loop with
+   its range-for) with every integer expression of the source translated with C++ semantics.  For the three limb types it IS the executable
+   model SamplersExec.set_hwt -- the reservoir the uniformity theorems above are about, followed by the store of C12_hwt_store -- for every
+   degree, weight 0 < h <= n, number of moduli, table of moduli and tape on which the model has a result. *)
+From NTT Require HwtSrc.
+From NTT.gen Require GenHwt.
+Theorem C12_source_set_hwt : HwtSrc.hwt_is_model 16 GenHwt.gen_set_hwt_u16 /\ HwtSrc.hwt_is_model 32 GenHwt.gen_set_hwt_u32 /\ HwtSrc.hwt_is_model 64 GenHwt.gen_set_hwt_u64.
+Proof. exact HwtSrc.source_set_hwt_is_model. Qed.
+Print Assumptions C12_source_set_hwt.
+(* the statement in full for one limb type *)
+Theorem C12_source_set_hwt_u64 : forall n nm hn P _data tape out,
+  (0 < hn <= n)%nat -> Z.of_nat n * Z.of_nat nm < 2 ^ 60 -> Z.of_nat n < 2 ^ 60 -> length _data = (n * nm)%nat -> (nm <= length P)%nat ->
+  (forall cm, 0 <= cm < Z.of_nat nm -> 0 < MemSem.tabP P cm < 2 ^ 64) ->
+  set_hwt n (firstn nm P) hn tape = Some out ->
+  exists tape', GenHwt.gen_set_hwt_u64 (length tape + 1)%nat (Z.of_nat n) _data (Z.of_nat hn) (Z.of_nat nm) P tape = Some (out, tape').
+Proof. intros n nm hn P _data tape out A B C D E F H. exact (proj2 (proj2 HwtSrc.source_set_hwt_is_model) n nm hn P _data tape out (conj A (conj B (conj C (conj D (conj E F))))) H). Qed.
+Print Assumptions C12_source_set_hwt_u64.
+Example C12_source_set_hwt_nonvacuous :
+  HwtSrc.hwt_pre 16 8 2 3 (97 :: 193 :: nil) (repeat 7 16) /\
+  (exists out tape', set_hwt 8 (97 :: 193 :: nil) 3 HwtSrc.demo_tape = Some out /\ GenHwt.gen_set_hwt_u16 401 8 (repeat 7 16) 3 2 (97 :: 193 :: nil) HwtSrc.demo_tape = Some (out, tape') /\
+     length (filter (fun v => negb (v =? 0)) (firstn 8 out)) = 3%nat).
+Proof. exact HwtSrc.source_set_hwt_nonvacuous. Qed.
